@@ -65,13 +65,27 @@ def confirm(sid):
         passed = sum(int(x) for x in re.findall(r"test result: ok\. (\d+) passed", out))
         failed = "FAILED" in out or "error" in out
         res["existing_tests_with_change"] = {"passed": passed, "any_failure": failed, "cmd": "cargo test --workspace --offline"}
-        demo_path = os.path.join(wt, demo_placement(meta, None))
+        place = meta.get("demo_placement") or {"mode": "file", "path": "wtransport-proto/tests/demo_seeded.rs",
+                                                 "cmd": "cargo test -p wtransport-proto --features async --offline --test demo_seeded"}
+        demo_path = os.path.join(wt, place["path"])
         os.makedirs(os.path.dirname(demo_path), exist_ok=True)
-        shutil.copy(os.path.join(d, "demo.rs"), demo_path)
-        cmd = "cargo test -p wtransport-proto --features async --offline --test demo_seeded 2>&1 | grep -E '^test result|panicked|error(\\[|:)' | head -8"
+        demo_src = open(os.path.join(d, "demo.rs")).read()
+
+        def put_demo():
+            if place["mode"] == "append":
+                with open(demo_path, "a") as f:
+                    f.write("\n" + demo_src)
+            else:
+                with open(demo_path, "w") as f:
+                    f.write(demo_src)
+
+        put_demo()
+        cmd = place["cmd"] + " 2>&1 | grep -E '^test result|panicked|error(\\[|:)' | head -8"
         rc, out = sh(cmd, cwd=wt, env=env)
-        res["demo_with_change"] = {"fails": "FAILED" in out or "panicked" in out, "tail": out[-600:]}
-        sh("git apply -R %s" % os.path.join(d, "patch.diff"), cwd=wt)
+        res["demo_with_change"] = {"fails": "FAILED" in out or "panicked" in out, "tail": out[-600:], "cmd": place["cmd"]}
+        # back to the unmodified source, demo only
+        sh("git checkout -- . ", cwd=wt)
+        put_demo()
         rc, out = sh(cmd, cwd=wt, env=env)
         res["demo_without_change"] = {"passes": bool(re.search(r"test result: ok\. [1-9]", out)) and "FAILED" not in out, "tail": out[-300:]}
         res["confirmed"] = (passed >= 76 and not failed and res["demo_with_change"]["fails"] and res["demo_without_change"]["passes"])
